@@ -284,6 +284,14 @@ class Machine:
                 self.init_store(o, 0, g['ty'], g['init'])
             if g['external'] and nm in ('stderr', 'stdout', 'stdin'):
                 o.cells[0] = (8, Ptr(o.id, 64))
+            if g['external'] and nm in ('_ZTVSt13runtime_error', '_ZTVSt11logic_error', '_ZTVSt9exception', '_ZTVSt12out_of_range',
+                                        '_ZTVSt16invalid_argument', '_ZTVSt12length_error', '_ZTVSt9bad_alloc', '_ZTVSt8bad_cast', '_ZTVSt12system_error'):
+                # vtables of libstdc++ exception classes: [offset-to-top, typeinfo, ~D1, ~D0, what]
+                cls = nm[4:]
+                what = {'St9exception': '_ZNKSt9exception4whatEv', 'St11logic_error': '_ZNKSt11logic_error4whatEv', 'St12out_of_range': '_ZNKSt11logic_error4whatEv',
+                        'St16invalid_argument': '_ZNKSt11logic_error4whatEv', 'St12length_error': '_ZNKSt11logic_error4whatEv'}.get(cls, '_ZNKSt13runtime_error4whatEv')
+                o.cells[0] = (8, 0); o.cells[8] = (8, Ptr(self.gid['_ZTI' + cls], 0) if ('_ZTI' + cls) in self.gid else NULL)
+                o.cells[16] = (8, Fn('vp_noop_dtor')); o.cells[24] = (8, Fn('vp_noop_dtor')); o.cells[32] = (8, Fn(what))
             if g['external'] and nm.startswith('_ZTTSt13basic_fstream'):
                 # part of the std::fstream model: an inlined ~basic_fstream() re-points the vptrs through the VTT and
                 # reads the virtual-base offset (264 for basic_fstream<char>) at vtable[-3]
